@@ -7,3 +7,10 @@ class Sentinel:
 
     def __repr__(self):
         return self.name
+
+
+def await_(value):
+    """marks the point where the asynchronous original awaits `value` (interpreted as an Await event by pyvc;
+    natively the scripted awaitables of the replay harness are resolved here)"""
+    resolve = getattr(value, "__resolve__", None)
+    return resolve() if resolve is not None else value
